@@ -271,7 +271,7 @@ impl Check for C18 {
             .into()
     }
     fn budget(t: Tier) -> usize {
-        t.pick(3000, 150_000)
+        t.pick(60_000, 1_500_000)
     }
     fn gen(s: &mut Src, _t: Tier) -> Case {
         if s.chance(1, 5) {
